@@ -92,6 +92,15 @@ func c08Universe() *c08U {
 		"fnerr": func() (int, error) { return 0, errors.New("e") },
 		"fnok":  func() (string, error) { return u.s1, nil },
 		"fnctx": func(c *ExecutionContext, a int) int { return a },
+		"fnctxv": func(c *ExecutionContext, xs ...int) int {
+			t := 0
+			for _, x := range xs {
+				t += x
+			}
+			return t + len(xs)*100
+		},
+		"fnctxav": func(c *ExecutionContext, a int, xs ...int) int { return a*10 + len(xs) },
+		"fnva": func(a string, xs ...int) string { return a + itoa(len(xs)) },
 		"fnbad": func() (int, int, int) { return 1, 2, 3 },
 		"k":     u.k, "ks": u.ks, "one": 1,
 	}
@@ -156,6 +165,9 @@ func (u *c08U) cases() []c08Case {
 		ok("anys.0", u.s0), ok("anys.1", itoa(u.n)), ok("anys.2", ""), ok("anys.2.x", ""), ok("anys.3.0", itoa(u.i1)),
 		ok("fn0()", u.s0), ok("fn0", u.s0), er("fn0(1)"), ok("fn2(i, one)", itoa(u.n*3+1)), er("fn2(2)"), er("fn2(\"a\", 3)"), er("fn2(nilv, 3)"),
 		ok("fnv()", "0"), ok("fnv(1, 2, 3)", "3"), er("fnv(\"a\")"), ok("fnval(i)", itoa(u.n+1)), er("fnerr()"), ok("fnok()", u.s1), ok("fnctx(5)", "5"), er("fnctx()"), er("fnbad()"),
+		ok("fnctxv()", "0"), ok("fnctxv(i)", itoa(u.n+100)), ok("fnctxv(i, one, one)", itoa(u.n+302)), er("fnctxv(\"a\")"),
+		ok("fnctxav(i)", itoa(u.n*10)), ok("fnctxav(i, one)", itoa(u.n*10+1)), er("fnctxav()"),
+		ok("fnva(ks)", u.ks+"0"), ok("fnva(ks, one, i)", u.ks+"2"), er("fnva(one)"),
 		er("i()"), er("str()"), ok("nilv()", ""),
 	}
 }
@@ -211,4 +223,8 @@ func HarnessC08Shadow() {
 	out, err := set.RenderTemplateString("{{ x }}{{ y }}{% with x=z %}{{ x }}{% endwith %}{% set y = z %}{{ y }}{{ x }}", Context{"x": b, "z": c})
 	verifAssert(err == nil, "render")
 	verifAssert(out == b+a+c+c+b, "tag-bound names shadow context keys, which shadow globals")
+	// a tag-bound name shadows also when its value is nil / empty: an omitted macro parameter, a nil argument, set to nothing
+	out, err = set.RenderTemplateString("{% macro show(x) %}[{{ x }}]{% endmacro %}{{ show() }}{{ show(nothing) }}{{ show(z) }}{% with y=nothing %}<{{ y }}>{% endwith %}{% set x = nothing %}({{ x }})", Context{"x": b, "z": c})
+	verifAssert(err == nil, "render")
+	verifAssert(out == "[][]["+c+"]<>()", "a tag-bound name must shadow the context key and the global even when it is bound to nil")
 }
